@@ -342,6 +342,45 @@ func c10SSHCross(keys []c10Key, f func(name string, line []byte)) {
 			b []byte
 		}{k.Name, b})
 	}
+	// blobs the ssh library parses into something other than a plain key:
+	// OpenSSH certificates and security-key (sk-*) public keys
+	for _, k := range keys {
+		if k.Name != "rsa-2048-e65537" && k.Name != "ed25519" {
+			continue
+		}
+		if sp, err := ssh.NewPublicKey(k.Pub); err == nil {
+			if signer, err := ssh.NewSignerFromSigner(vfKeys.caRSA); err == nil {
+				crt := &ssh.Certificate{Key: sp, CertType: ssh.UserCert, KeyId: "x", ValidPrincipals: []string{"alice"}, ValidBefore: ssh.CertTimeInfinity}
+				if crt.SignCert(vfZeroReader{}, signer) == nil {
+					blobs = append(blobs, struct {
+						n string
+						b []byte
+					}{"sshcert-" + k.Name, crt.Marshal()})
+				}
+			}
+		}
+	}
+	wstr := func(b []byte) []byte {
+		l := make([]byte, 4)
+		binary.BigEndian.PutUint32(l, uint32(len(b)))
+		return append(l, b...)
+	}
+	blobs = append(blobs, struct {
+		n string
+		b []byte
+	}{"sk-ed25519", append(append(wstr([]byte("sk-ssh-ed25519@openssh.com")), wstr(make([]byte, 32))...), wstr([]byte("ssh:"))...)})
+	for _, k := range keys {
+		if k.Name == "ecdsa-p256" {
+			if ek, ok := k.Pub.(*ecdsa.PublicKey); ok {
+				pt := elliptic.Marshal(ek.Curve, ek.X, ek.Y)
+				b := append(append(append(wstr([]byte("sk-ecdsa-sha2-nistp256@openssh.com")), wstr([]byte("nistp256"))...), wstr(pt)...), wstr([]byte("ssh:"))...)
+				blobs = append(blobs, struct {
+					n string
+					b []byte
+				}{"sk-ecdsa-p256", b})
+			}
+		}
+	}
 	for _, t := range tags {
 		for _, bl := range blobs {
 			// outer tag swapped, inner blob untouched
@@ -656,4 +695,14 @@ func c10Trim(s string) string {
 		return s[:1500]
 	}
 	return s
+}
+
+// vfZeroReader is a deterministic entropy source for fixture construction.
+type vfZeroReader struct{}
+
+func (vfZeroReader) Read(p []byte) (int, error) {
+	for i := range p {
+		p[i] = 0
+	}
+	return len(p), nil
 }
